@@ -64,12 +64,14 @@ def emit_param_str(
     del param
 
     _fill = fill if word_wrap else identity
+    # In a class the return entry is one more attribute (`return_type`), documented like the others
+    is_return: bool = name == "return_type" and purpose != "class"
 
     if style == "rest":
         emit_type &= purpose == "function"
         key, key_typ = (
             ("return", "rtype")
-            if name == "return_type" and purpose != "class"
+            if is_return
             else (
                 "{var} {name}".format(
                     var="param" if purpose == "function" else "cvar", name=name
@@ -117,12 +119,12 @@ def emit_param_str(
                     (
                         _fill(
                             _param["typ"]
-                            if name == "return_type"
+                            if is_return
                             else "{name} : {typ}".format(name=name, typ=_param["typ"])
                         )
                         if emit_type and _param.get("typ")
                         # an entry whose type is not written still needs its name line
-                        else (None if name == "return_type" else name)
+                        else (None if is_return else name)
                     ),
                     (
                         # wrap first, then indent: every line of the description belongs under the name
@@ -151,7 +153,7 @@ def emit_param_str(
                             if _param.get("typ")
                             else None
                         )
-                        if name == "return_type"
+                        if is_return
                         else (
                             "  {name} ({typ}): ".format(
                                 name=name,
@@ -172,7 +174,7 @@ def emit_param_str(
                             )[1]["doc"],
                             **(
                                 {"nl": "\n", "tab": " " * 3}
-                                if name == "return_type"
+                                if is_return
                                 else {"nl": "", "tab": ""}
                             )
                         )
